@@ -58,19 +58,52 @@ def relators_unmodified(ctx, g):
         okx = okx and (every_iteration_reaches_bool(er, bi) or True)
     # a trivial relator (a word that freely reduces to the empty word) constrains nothing, but relator_permutations(empty) = {empty} and both
     # coset_table (`w[0] == g`) and scan_both_ways (`w[0]` as dummy letter) index the first letter of every expanded relator
+    # decided by evaluating the guard for words of length 0, 1, 2, 5: the extend is reached exactly for length > 0 (a guard `len() > 1` also
+    # drops the one-letter relators, which do constrain the group: <a, b | a, b^3> becomes Z * Z3)
     okne = False
+    flt = False
+    why_ne = "no guard on the length of the relator dominates the extend"
+
+    def len_env(term_holder, L):
+        env = {}
+        for y in subterms(term_holder):
+            if isinstance(y, tuple) and y and is_call(y, "FreeWord::len"):
+                env[y] = L
+            if isinstance(y, tuple) and y and y[0] == "call" and y[1].endswith("is_empty"):
+                env[y] = 1 if L == 0 else 0
+        return env
     for bi, t in ext:
-        for a in er.facts_at(bi):
-            a = atom_norm(a, g)
-            if a[0] == "rel" and is_call(strip(a[3] if a[2][0] == "int" else a[2]), "FreeWord::len"):
-                if implies(a, ("rel", "Lt", ("int", 0), strip(a[3]))) if a[2][0] == "int" else implies(a, ("rel", "Ne", strip(a[2]), ("int", 0))):
-                    okne = True
-            if a[0] == "bool" and is_call(a[1], "is_empty") and a[2] is False:
-                okne = True
-    flt = any(t["callee"].get("def", "").endswith("Iterator::filter") or t["callee"].get("def", "").endswith("::retain") for bi, t in er.calls())
+        atoms = [atom_norm(a, g) for a in er.facts_at(bi)]
+        rel_atoms = [a for a in atoms if contains(a[1] if a[0] == "bool" else ("agg", "x", tuple(x for x in a[1:] if isinstance(x, tuple))), lambda y: is_call(y, "FreeWord::len") or (y[0] == "call" and y[1].endswith("is_empty")))]
+        if rel_atoms:
+            table = {}
+            for L in (0, 1, 2, 5):
+                vals = []
+                for a in rel_atoms:
+                    holder = ("agg", "x", tuple(x for x in a[1:] if isinstance(x, tuple)))
+                    vals.append(eval_atom_env(a, len_env(holder, L)))
+                table[L] = None if any(v is None for v in vals) else all(vals)
+            okne = table == {0: False, 1: True, 2: True, 5: True}
+            why_ne = "the guard lets relators of length %s through and drops those of length %s" % ([L for L, v in table.items() if v], [L for L, v in table.items() if v is False])
+    for bi, t in er.calls():
+        if t["callee"].get("def", "").endswith("Iterator::filter") or t["callee"].get("def", "").endswith("::retain"):
+            res = closure_result(ctx.facts, er.origin(t["args"][1]), g)
+            if res is not None:
+                table = {}
+                for L in (0, 1, 2, 5):
+                    r_ = strip(res)
+                    if r_[0] == "binop":
+                        table[L] = eval_atom_env(("rel", r_[1], r_[2], r_[3]), len_env(r_, L))
+                    elif r_[0] == "unop" and r_[1] == "Not":
+                        v_ = eval_term_env(r_[2], len_env(r_, L))
+                        table[L] = None if v_ is None else not v_
+                    else:
+                        table[L] = None
+                flt = table == {0: False, 1: True, 2: True, 5: True}
+                why_ne = "the filter lets relators of length %s through" % [L for L, v in table.items() if v]
     ctx.ob("T3-no-empty-relator", er.name, "extend<-rel.len() > 0", "ok" if okne or flt else "violation",
-           "a relator that reduces to the empty word is not expanded (it constrains nothing)" if okne or flt else
-           "an empty relator is expanded to the empty word, whose first letter coset_table (`w[0] == g`) and scan_both_ways (`w[0]`) read: "
+           "exactly the relators that reduce to the empty word are left out (guard evaluated for lengths 0, 1, 2, 5)" if okne or flt else
+           "relators are not expanded exactly when non-empty (" + why_ne + "): an empty relator is expanded to the empty word, whose first letter coset_table (`w[0] == g`) and scan_both_ways (`w[0]`) read: "
            "coset_table(1, [a^3, a a^-1], []) and coset_tables(2, [[a, b], b b^-1], 3) panic instead of returning the tables of Z3 / Z^2")
     ctx.ob("T9-relators-unmodified", er.name, "extend(relator_permutations(rel)) for every rel", "ok" if okx else "violation",
            "every given relator contributes all its rotations and inverses" if okx else "expanded_relator_set does not add relator_permutations(rel) for every given relator")
